@@ -334,3 +334,53 @@ func VxH_C16_cache(wop, rop int) {
 		xsync.VxAssert(cnt >= 0 && cnt <= 2, "stalled writer: Count returns")
 	}
 }
+
+// VxH_C07_itemsPar: Items() concurrent with one Set, over the seam with an
+// arbitrary placement of up to three stored entries: every key that stays
+// present and unexpired for the whole call is in the result with its value.
+func VxH_C07_itemsPar() {
+	now := xsync.VxI64("now")
+	xsync.VxAssume(now >= 0 && now < 1<<62)
+	xsync.VxClockSet(now)
+	s := &vxSeam[interface{}]{}
+	var ks [3]string
+	var vs [3]int
+	var occ [3]bool
+	for i := 0; i < 3; i++ {
+		ks[i], vs[i], occ[i] = xsync.VxStr("k"), xsync.VxInt("v"), xsync.VxBool("occ")
+		for j := 0; j < i; j++ {
+			xsync.VxAssume(ks[j] != ks[i])
+		}
+		if occ[i] {
+			s.k[i], s.v[i], s.ok[i] = ks[i], item{vs[i], 0}, true
+		}
+	}
+	c := vxNewSeamCache(NoExpiration, nil)
+	c.items = s
+	kB := xsync.VxStr("kB")
+	nvB := xsync.VxInt("nvB")
+	var got map[string]interface{}
+	xsync.VxReach("pre-state built")
+	xsync.VxPar(
+		func() { got = c.Items() },
+		func() { c.Set(kB, nvB, 0) },
+	)
+	xsync.VxReach("both threads finished")
+	xsync.VxObserve("n", len(got))
+	for i := 0; i < 3; i++ {
+		if occ[i] && ks[i] != kB {
+			v, ok := got[ks[i]]
+			xsync.VxAssert(ok && v == interface{}(vs[i]), "Items: a key that stays present and unexpired for the whole call is in the result with its value")
+		}
+	}
+	v, ok := got[kB]
+	if ok {
+		stored := false
+		for i := 0; i < 3; i++ {
+			if occ[i] && ks[i] == kB && v == interface{}(vs[i]) {
+				stored = true
+			}
+		}
+		xsync.VxAssert(stored || v == interface{}(nvB), "Items: a reported value was stored under that key")
+	}
+}
